@@ -126,6 +126,7 @@ struct Cfg {
     update: i64,
     logm: Option<Vec<u32>>,
     dlog: bool,
+    elog: bool,
 }
 
 fn kv<'a>(toks: &'a [&'a str], key: &str) -> Option<&'a str> {
@@ -146,14 +147,24 @@ fn make_args(cfg: &Cfg, source: &str) -> Args {
     a.count_df = cfg.count;
     a.filter = cfg.filter.clone();
     a.delete_after = cfg.delete_after;
-    a.display_info = vec![if cfg.show { cfg.groups.clone() } else { format!("{}Q", cfg.groups) }];
-    a.order_by = vec![cfg.order.clone()];
+    // '+' separates several occurrences of the option (-i a -i w  is  groups=a+w)
+    let mut di: Vec<String> = cfg.groups.split('+').map(|x| x.to_string()).collect();
+    if !cfg.show { if let Some(l) = di.last_mut() { l.push('Q'); } }
+    a.display_info = di;
+    a.order_by = cfg.order.split('+').map(|x| x.to_string()).collect();
     a.update = cfg.update;
     a.source = source.to_string();
     a.tcp = String::new();
     a.observer_coord = None;
     a.log_messages = cfg.logm.clone();
     a.downlink_log = if cfg.dlog { Some(format!("{}.dlog", source)) } else { None };
+    // -l: main() installs the logger once per process, before the reader starts; the harness does the same
+    a.error_log = if cfg.elog { Some(std::env::temp_dir().join(format!("sqh-{}.elog", std::process::id())).to_string_lossy().to_string()) } else { None };
+    if cfg.elog {
+        static ONCE: std::sync::Once = std::sync::Once::new();
+        let path = a.error_log.clone().unwrap();
+        ONCE.call_once(|| { let _ = squitterator::initialize_logger(&path); });
+    }
     a
 }
 
@@ -333,7 +344,7 @@ fn main() {
     let table: Arc<RwLock<HashMap<u32, Plane>>> = Arc::new(RwLock::new(HashMap::new()));
     let mut cfg = Cfg {
         relaxed: false, use_update: false, count: false, filter: None, delete_after: 60,
-        groups: "aAews".to_string(), order: "sA".to_string(), show: false, update: -1, logm: None, dlog: false,
+        groups: "aAews".to_string(), order: "sA".to_string(), show: false, update: -1, logm: None, dlog: false, elog: false,
     };
     let mut seg: Option<Vec<u8>> = None;
     let mut seg_no = 0u64;
@@ -363,6 +374,7 @@ fn main() {
                     }
                     if let Some(d) = kv(t, "delete_after") { cfg.delete_after = d.parse().unwrap_or(cfg.delete_after); }
                     cfg.dlog = bv("dlog", cfg.dlog);
+                    cfg.elog = bv("elog", cfg.elog);
                     if let Some(f) = kv(t, "logm") {
                         cfg.logm = if f == "-" { None } else { Some(f.split(',').filter_map(|x| x.parse().ok()).collect()) };
                     }
@@ -378,7 +390,7 @@ fn main() {
                     table.write().unwrap().clear();
                     cfg = Cfg {
                         relaxed: false, use_update: false, count: false, filter: None, delete_after: 60,
-                        groups: "aAews".to_string(), order: "sA".to_string(), show: false, update: -1, logm: None, dlog: false,
+                        groups: "aAews".to_string(), order: "sA".to_string(), show: false, update: -1, logm: None, dlog: false, elog: false,
                     };
                 }
                 "seg" => { seg = Some(Vec::new()); }
